@@ -250,11 +250,12 @@ func (c *FITToCSVConv) copy(dest io.Writer, src io.Reader, maxCommaCount int) er
 			}
 		}
 
-		missing := maxCommaCount - count
-		padding := bytes.Repeat([]byte{','}, missing)
-		_, err = dest.Write(padding)
-		if err != nil {
-			return err
+		if missing := maxCommaCount - count; missing > 0 {
+			padding := bytes.Repeat([]byte{','}, missing)
+			_, err = dest.Write(padding)
+			if err != nil {
+				return err
+			}
 		}
 
 		_, err = dest.Write([]byte{'\n'})
@@ -289,6 +290,18 @@ func (c *FITToCSVConv) printHeader() {
 	c.buf.Reset()
 }
 
+// writeText writes a name or units text as one CSV field: quoted when it contains a comma,
+// a double quote or a line break (e.g. the units "m/s,m" of record.compressed_speed_distance).
+func writeText(buf *bytes.Buffer, s string) {
+	if !strings.ContainsAny(s, ",\"\r\n") {
+		buf.WriteString(s)
+		return
+	}
+	buf.WriteByte('"')
+	buf.WriteString(strings.ReplaceAll(s, `"`, `""`))
+	buf.WriteByte('"')
+}
+
 func formatUnknown(num int) string {
 	return "unknown(" + strconv.Itoa(num) + ")"
 }
@@ -321,7 +334,7 @@ func (c *FITToCSVConv) writeMesgDef(mesgDef proto.MessageDefinition) {
 			name = formatUnknown(int(field.Num))
 		}
 
-		c.buf.WriteString(name)
+		writeText(c.buf, name)
 		c.buf.WriteByte(',')
 
 		c.buf.WriteString(strconv.Itoa(int(fieldDef.Size / fieldDef.BaseType.Size())))
@@ -341,7 +354,7 @@ func (c *FITToCSVConv) writeMesgDef(mesgDef proto.MessageDefinition) {
 		} else if c.options.verbose {
 			name = formatUnknown(int(devFieldDef.Num))
 		}
-		c.buf.WriteString(name)
+		writeText(c.buf, name)
 		c.buf.WriteByte(',')
 
 		c.buf.WriteString(strconv.Itoa(int(devFieldDef.Size)))
@@ -404,7 +417,7 @@ func (c *FITToCSVConv) writeMesg(mesg proto.Message) {
 			name, units = subField.Name, subField.Units
 		}
 
-		c.buf.WriteString(name)
+		writeText(c.buf, name)
 
 		if !c.options.printRawValue {
 			value = scaleoffset.ApplyValue(field.Value, field.Scale, field.Offset)
@@ -419,7 +432,7 @@ func (c *FITToCSVConv) writeMesg(mesg proto.Message) {
 		c.buf.WriteString(format(value))
 		c.buf.WriteString("\",")
 
-		c.buf.WriteString(units)
+		writeText(c.buf, units)
 		c.buf.WriteByte(',')
 
 		fieldCounter++
@@ -438,13 +451,13 @@ func (c *FITToCSVConv) writeMesg(mesg proto.Message) {
 			name = formatUnknown(int(devField.Num))
 		}
 
-		c.buf.WriteString(name)
+		writeText(c.buf, name)
 
 		c.buf.WriteString(",\"")
 		c.buf.WriteString(format(devField.Value))
 		c.buf.WriteString("\",")
 
-		c.buf.WriteString(units)
+		writeText(c.buf, units)
 		c.buf.WriteByte(',')
 
 		fieldCounter++
